@@ -13,7 +13,22 @@ use serde_json::json;
 use std::collections::{BTreeMap, BTreeSet};
 
 #[derive(Clone, Debug)]
-enum Op { NewId, Add(Object), Set(ObjectId, Object), Del(ObjectId), Prune, DelZero, Renum(u32), DelPages(Vec<u32>), AddContent(ObjectId, Vec<u8>) }
+enum Op { NewId, Add(Object), Set(ObjectId, Object), Del(ObjectId), Prune, DelZero, Renum(u32), DelPages(Vec<u32>), AddContent(ObjectId, Vec<u8>),
+          RmAnnot(ObjectId), AddXObj(ObjectId, Vec<u8>, ObjectId), AddGs(ObjectId, Vec<u8>, ObjectId), ChgStream(ObjectId, Vec<u8>), ChgPage(ObjectId, Vec<u8>) }
+
+/// what `ZlibEncoder::new(_, Compression::best())` returns: the external codec result shipped with the request
+fn deflate_best(data: &[u8]) -> Vec<u8> {
+    use std::io::Write;
+    let mut e = flate2::write::ZlibEncoder::new(Vec::new(), flate2::Compression::best());
+    e.write_all(data).unwrap();
+    e.finish().unwrap()
+}
+fn inflate(data: &[u8]) -> Option<Vec<u8>> {
+    use std::io::Read;
+    let mut out = vec![];
+    flate2::read::ZlibDecoder::new(data).read_to_end(&mut out).ok()?;
+    Some(out)
+}
 
 fn op_text(op: &Op) -> String {
     match op {
@@ -26,6 +41,11 @@ fn op_text(op: &Op) -> String {
         Op::Renum(s) => format!("renum {}", s),
         Op::DelPages(v) => format!("delpages {}{}", v.len(), v.iter().map(|n| format!(" {}", n)).collect::<String>()),
         Op::AddContent(id, c) => format!("addcontent {} {} {}", id.0, id.1, hex_tok(c)),
+        Op::RmAnnot(id) => format!("rmannot {} {}", id.0, id.1),
+        Op::AddXObj(p, n, x) => format!("addxobj {} {} {} {} {}", p.0, p.1, hex_tok(n), x.0, x.1),
+        Op::AddGs(p, n, x) => format!("addgs {} {} {} {} {}", p.0, p.1, hex_tok(n), x.0, x.1),
+        Op::ChgStream(id, c) => format!("chgstream {} {} {} {}", id.0, id.1, hex_tok(c), hex_tok(&deflate_best(c))),
+        Op::ChgPage(id, c) => format!("chgpage {} {} {} {}", id.0, id.1, hex_tok(c), hex_tok(&deflate_best(c))),
     }
 }
 fn ids_text(v: &[ObjectId]) -> String { format!("{}{}", v.len(), v.iter().map(|(n, g)| format!(" {}_{}", n, g)).collect::<String>()) }
@@ -42,7 +62,52 @@ fn apply(doc: &mut Document, op: &Op) -> String {
         Op::Renum(s) => { doc.renumber_objects_with(*s); "unit".into() }
         Op::DelPages(v) => { doc.delete_pages(v); "unit".into() }
         Op::AddContent(id, c) => match doc.add_page_contents(*id, c.clone()) { Ok(()) => "unit".into(), Err(_) => "err".into() },
+        Op::RmAnnot(id) => match doc.remove_object(id) { Ok(()) => "unit".into(), Err(_) => "err".into() },
+        Op::AddXObj(p, n, x) => match doc.add_xobject(*p, n.clone(), *x) { Ok(()) => "unit".into(), Err(_) => "err".into() },
+        Op::AddGs(p, n, x) => match doc.add_graphics_state(*p, n.clone(), *x) { Ok(()) => "unit".into(), Err(_) => "err".into() },
+        Op::ChgStream(id, c) => { doc.change_content_stream(*id, c.clone()); "unit".into() }
+        Op::ChgPage(id, c) => match doc.change_page_content(*id, c.clone()) { Ok(()) => "unit".into(), Err(_) => "err".into() },
     }
+}
+
+// ---------------------------------------------------------------- resources in effect (nearest dictionary up the Parent chain)
+
+fn resolve<'a>(doc: &'a Document, mut o: &'a Object) -> Option<&'a Object> {
+    for _ in 0..200 { match o { Object::Reference(r) => o = doc.objects.get(r)?, x => return Some(x) } }
+    None
+}
+/// (category, name) -> value of the resource dictionary in effect for the page; `own` says whether it is the page's own
+fn effective_resources(doc: &Document, page: ObjectId) -> Option<(BTreeMap<(Vec<u8>, Vec<u8>), Object>, bool)> {
+    let mut cur = page; let mut own = true;
+    for _ in 0..100 {
+        let d = match resolve(doc, doc.objects.get(&cur)?)? { Object::Dictionary(d) => d, _ => return None };
+        if let Ok(r) = d.get(b"Resources") {
+            let mut m = BTreeMap::new();
+            if let Some(Object::Dictionary(rd)) = resolve(doc, r) {
+                for (cat, v) in rd.iter() {
+                    if let Some(Object::Dictionary(cd)) = resolve(doc, v) { for (n, x) in cd.iter() { m.insert((cat.clone(), n.clone()), x.clone()); } }
+                }
+            }
+            return Some((m, own));
+        }
+        match d.get(b"Parent") { Ok(Object::Reference(p)) => { cur = *p; own = false; } _ => return Some((BTreeMap::new(), own)) }
+    }
+    None
+}
+fn decoded(s: &lopdf::Stream) -> Option<Vec<u8>> {
+    match s.dict.get(b"Filter") {
+        Err(_) => Some(s.content.clone()),
+        Ok(Object::Name(n)) if n == b"FlateDecode" && !s.dict.has(b"DecodeParms") => inflate(&s.content),
+        _ => None,
+    }
+}
+fn check_changed_stream(c: &mut Ctx, sc: &StepCtx, before: &Document, after: &Document, sid: ObjectId, content: &[u8]) {
+    if let (Some(Object::Stream(b)), Some(Object::Stream(a))) = (before.objects.get(&sid), after.objects.get(&sid)) {
+        if decoded(a).as_deref() != Some(content) { fail(c, sc, "content:decoded", "the stream does not decode to the new content", before); }
+        if !matches!(a.dict.get(b"Length"), Ok(Object::Integer(l)) if *l == a.content.len() as i64) { fail(c, sc, "content:length", "Length is not the stored length", before); }
+        for (k, v) in b.dict.iter() { if k != b"Length" && k != b"Filter" && k != b"DecodeParms" && a.dict.get(k).ok() != Some(v) { fail(c, sc, "frame:change_content_stream", "stream dictionary entry lost", before); break; } }
+        if a.dict.has(b"Filter") { c.count("content_compressed"); } else { c.count("content_plain"); }
+    } else { fail(c, sc, "frame:change_content_stream", "stream missing", before); }
 }
 
 // ---------------------------------------------------------------- what delete_object leaves behind (shape of F-C11-a)
@@ -257,6 +322,67 @@ fn oracle(c: &mut Ctx, sc: &StepCtx, op: &Op, before: &Document, after: &Documen
                 c.count("add_page_contents_ok");
             } else { c.count("add_page_contents_err"); }
         }
+        Op::RmAnnot(id) => {
+            if ret == "unit" {
+                let pages: Vec<ObjectId> = before.page_iter().collect();
+                let mut targets = vec![];
+                for p in &pages {
+                    let mut pid = *p; let mut hops = 0;
+                    while let Some(Object::Reference(r)) = before.objects.get(&pid) { pid = *r; hops += 1; if hops > 200 { break; } }
+                    targets.push(pid);
+                    if let (Some(Object::Dictionary(b)), Some(Object::Dictionary(a))) = (before.objects.get(&pid), after.objects.get(&pid)) {
+                        let want: Option<Vec<Object>> = match b.get(b"Annots") { Ok(Object::Array(v)) => Some(v.iter().filter(|o| !is_ref_to(o, *id)).cloned().collect()), _ => None };
+                        if a.get(b"Annots").ok().and_then(|x| x.as_array().ok()).cloned() != want { fail(c, sc, "remove_object:annots", "Annots is not the old array without the references to the annotation", before); }
+                        for (k, v) in b.iter() { if k != b"Annots" && a.get(k).ok() != Some(v) { fail(c, sc, "frame:remove_object", "page entry altered", before); break; } }
+                    }
+                }
+                unchanged(c, &targets, "frame:remove_object");
+                c.count("remove_object_ok");
+            } else { c.count("remove_object_err"); }
+        }
+        Op::AddXObj(page, name, x) | Op::AddGs(page, name, x) => {
+            let cat: &[u8] = if matches!(op, Op::AddXObj(..)) { b"XObject" } else { b"ExtGState" };
+            let eb = effective_resources(before, *page);
+            let ea = effective_resources(after, *page);
+            if let (Some((eb, own_before)), Some((ea, _))) = (&eb, &ea) {
+                let mut lost = false;
+                for (k, v) in eb.iter() {
+                    if (k.0.as_slice(), k.1.as_slice()) == (cat, name.as_slice()) { continue; }
+                    // a resource is a name bound to an object: still bound, and to the same object when it is a reference
+                    match (v, ea.get(k)) { (_, None) => lost = true, (Object::Reference(a), Some(Object::Reference(b))) if a != b => lost = true, (Object::Reference(_), Some(x)) if !matches!(x, Object::Reference(_)) => lost = true, _ => {} }
+                }
+                if lost {
+                    if !*own_before { c.count("resources_inherited_shadowed"); fail(c, sc, "resources:inherited-shadowed", "adding a resource gave the page an own Resources dictionary that hides the inherited one", before); }
+                    else { fail(c, sc, "resources:lost", "adding a resource took an existing resource away", before); }
+                } else { c.count("resources_monotone_checked"); }
+                let changed = after.objects != before.objects;
+                if changed && ret == "unit" && ea.get(&(cat.to_vec(), name.clone())) != Some(&Object::Reference(*x)) {
+                    fail(c, sc, "resources:not-added", "the new resource is not in the page's resource dictionary", before);
+                }
+            }
+            if after.trailer != before.trailer || after.max_id != before.max_id || after.objects.len() != before.objects.len() { fail(c, sc, "frame:add_resource", "trailer / max_id / object count changed", before); }
+        }
+        Op::ChgStream(sid, content) => {
+            if matches!(before.objects.get(sid), Some(Object::Stream(_))) { check_changed_stream(c, sc, before, after, *sid, content); unchanged(c, &[*sid], "frame:change_content_stream"); }
+            else { unchanged(c, &[], "frame:change_content_stream"); }
+        }
+        Op::ChgPage(page, content) => {
+            if ret == "unit" && (after.objects != before.objects) {
+                // the page's content afterwards = the new content (own decoding of the streams Contents names)
+                let mut pid = *page; let mut hops = 0;
+                while let Some(Object::Reference(r)) = after.objects.get(&pid) { pid = *r; hops += 1; if hops > 200 { break; } }
+                if let Some(Object::Dictionary(a)) = after.objects.get(&pid) {
+                    let ids: Vec<ObjectId> = match a.get(b"Contents") { Ok(Object::Reference(r)) => vec![*r], Ok(Object::Array(v)) => v.iter().filter_map(|o| o.as_reference().ok()).collect(), _ => vec![] };
+                    let mut all = vec![]; let mut ok = true;
+                    for i in &ids { match after.objects.get(i) { Some(Object::Stream(s)) => match decoded(s) { Some(d) => all.extend(d), None => ok = false }, _ => ok = false } }
+                    if !ok || all != *content { fail(c, sc, "content:page", "the page's decoded content is not the new content", before); } else { c.count("change_page_content_checked"); }
+                }
+                if after.objects.len() > before.objects.len() {
+                    let nid = (after.max_id, 0u16);
+                    if before.objects.keys().any(|k| k.0 >= nid.0) { fail(c, sc, "fresh:change_page_content", "content stream id not fresh", before); }
+                }
+            }
+        }
     }
 }
 
@@ -297,12 +423,16 @@ fn gen_op(r: &mut Rng, doc: &Document, safe_only: bool) -> Option<Op> {
     let rp = RefPool { ids: &rp_ids, dangling: Dangling::Safe };
     let pages = oracle_pages(doc);
     let safe = |id: &ObjectId| predict_leftovers(doc, *id).count == 0;
-    Some(match r.below(12) {
+    let streams: Vec<ObjectId> = doc.objects.iter().filter(|(_, o)| matches!(o, Object::Stream(_))).map(|(k, _)| *k).collect();
+    let gen_content = |r: &mut Rng| -> Vec<u8> { if r.chance(1, 2) { let pat: Vec<u8> = (0..1 + r.usize(6)).map(|_| r.byte()).collect(); let n = r.usize(60); (0..n).flat_map(|_| pat.clone()).collect() } else { (0..r.usize(40)).map(|_| r.byte()).collect() } };
+    let res_names: [&[u8]; 4] = [b"Im1", b"X", b"GS0", b"F1"];
+    Some(match r.below(18) {
         0 => Op::NewId,
         1 | 2 => Op::Add(gen_obj(r, 0, &rp)),
         3 => {
-            // replace an existing object, or fill a free number below max_id
-            if !ids.is_empty() && r.chance(3, 4) { Op::Set(*r.pick(&ids), gen_obj(r, 0, &rp)) }
+            // replace an existing object, store above max_id, or fill a free number below max_id
+            if r.chance(1, 4) { Op::Set((doc.max_id.saturating_add(1 + r.below(6) as u32), if r.chance(1, 8) { 1 } else { 0 }), gen_obj(r, 0, &rp)) }
+            else if !ids.is_empty() && r.chance(3, 4) { Op::Set(*r.pick(&ids), gen_obj(r, 0, &rp)) }
             else if doc.max_id >= 1 {
                 // a free NUMBER (two live objects never share a number with different generations)
                 let n = 1 + r.below(doc.max_id as u64) as u32;
@@ -330,17 +460,70 @@ fn gen_op(r: &mut Rng, doc: &Document, safe_only: bool) -> Option<Op> {
             if !safe_only && r.chance(1, 3) { v.push(r.below(pages.len() as u64 + 2) as u32); }
             Op::DelPages(v)
         }
-        _ => {
+        10 | 11 => {
             let target = if !pages.is_empty() && r.chance(5, 6) { *r.pick(&pages) } else if !ids.is_empty() { *r.pick(&ids) } else { (1, 0) };
             Op::AddContent(target, (0..r.usize(8)).map(|_| r.byte()).collect())
         }
+        12 => {
+            if ids.is_empty() { return None; }
+            // mostly an id that some page's Annots really holds; sometimes the same number with another generation
+            let mut annots: Vec<ObjectId> = vec![];
+            for p in &pages { if let Some(Object::Dictionary(d)) = doc.objects.get(p) { if let Ok(Object::Array(a)) = d.get(b"Annots") { for x in a { if let Object::Reference(i) = x { annots.push(*i); } } } } }
+            if !annots.is_empty() && r.chance(3, 4) { let a = *r.pick(&annots); if r.chance(1, 3) { Op::RmAnnot((a.0, a.1.wrapping_add(1))) } else { Op::RmAnnot(a) } }
+            else { Op::RmAnnot(*r.pick(&ids)) }
+        }
+        13 | 14 => {
+            if ids.is_empty() { return None; }
+            let page = if !pages.is_empty() && r.chance(7, 8) { *r.pick(&pages) } else { *r.pick(&ids) };
+            if safe_only { if let Some((eb, own)) = effective_resources(doc, page) { if !own && !eb.is_empty() { return None; } } }
+            let name = r.pick(&res_names).to_vec(); let x = *r.pick(&ids);
+            if r.chance(1, 2) { Op::AddXObj(page, name, x) } else { Op::AddGs(page, name, x) }
+        }
+        15 => {
+            let t = if !streams.is_empty() && r.chance(5, 6) { *r.pick(&streams) } else if !ids.is_empty() { *r.pick(&ids) } else { return None };
+            Op::ChgStream(t, gen_content(r))
+        }
+        _ => {
+            let target = if !pages.is_empty() && r.chance(7, 8) { *r.pick(&pages) } else if !ids.is_empty() { *r.pick(&ids) } else { return None };
+            Op::ChgPage(target, gen_content(r))
+        }
     })
+}
+
+/// give pages / Pages nodes resource dictionaries in the shapes the API has to cope with: own direct
+/// dictionary, own dictionary behind a reference, sub-dictionaries direct or behind a reference, none
+/// (inherited from an ancestor)
+fn decorate_resources(r: &mut Rng, doc: &mut Document, leaves: &[ObjectId]) {
+    let ids: Vec<ObjectId> = doc.objects.keys().cloned().collect();
+    let sub = |r: &mut Rng, ids: &[ObjectId]| -> Dictionary { let mut d = Dictionary::new(); for n in [&b"F1"[..], b"Im1", b"GS0"].iter().take(1 + r.usize(3)) { d.set(n.to_vec(), Object::Reference(*r.pick(ids))); } d };
+    let nodes: Vec<ObjectId> = doc.objects.iter().filter(|(_, o)| matches!(o, Object::Dictionary(d) if d.has_type(b"Pages"))).map(|(k, _)| *k).collect();
+    for n in nodes {
+        if r.chance(1, 2) {
+            let mut res = Dictionary::new(); res.set("Font", Object::Dictionary(sub(r, &ids)));
+            if r.chance(1, 2) { res.set("XObject", Object::Dictionary(sub(r, &ids))); }
+            if let Some(Object::Dictionary(d)) = doc.objects.get_mut(&n) { d.set("Resources", Object::Dictionary(res)); }
+        }
+    }
+    for p in leaves {
+        let mut res = Dictionary::new();
+        if r.chance(2, 3) { res.set("Font", Object::Dictionary(sub(r, &ids))); }
+        match r.below(4) { 0 => {} 1 => { res.set("XObject", Object::Dictionary(sub(r, &ids))); }
+            2 => { let x = doc.add_object(Object::Dictionary(sub(r, &ids))); res.set("XObject", Object::Reference(x)); }
+            _ => { res.set("ExtGState", Object::Dictionary(sub(r, &ids))); } }
+        let v = match r.below(4) {
+            0 => None,                                               // inherited (or none at all)
+            1 => Some(Object::Reference(doc.add_object(Object::Dictionary(res)))),
+            _ => Some(Object::Dictionary(res)),
+        };
+        if let Some(Object::Dictionary(d)) = doc.objects.get_mut(p) { match v { Some(v) => d.set("Resources", v), None => { d.remove(b"Resources"); } } }
+    }
 }
 
 fn run_program(c: &mut Ctx, r: &mut Rng, stream: &str, safe_only: bool, max_len: usize) {
     let o = Opts { pages_in_id_order: r.chance(1, 2), bookmarks: false, dangling: if r.chance(1, 3) { Dangling::Safe } else { Dangling::None }, malformed: false, max_other: 8 };
     let g = gen_doc(r, &o);
     let mut doc = g.doc;
+    if r.chance(2, 3) { decorate_resources(r, &mut doc, &g.leaves); }
     if r.chance(1, 4) { if let Some(l) = through_file(&doc) { doc = l; c.count("loaded_from_generated_file"); } }
     let len = 1 + r.usize(max_len);
     let mut key = String::new();
@@ -423,6 +606,24 @@ fn witnesses(c: &mut Ctx) {
                 &format!("Kids [2 0 R, 4 0 R, 2 0 R]: renumber_objects() leaves {} of {} objects", x.objects.len(), before.objects.len()));
         }
     }
+    // F-C11-e: a page that only inherits Resources gets an own (nearly empty) dictionary that hides them
+    if let Some(_r) = c.case("witness_inherited_resources_shadowed", 0) {
+        let mut d = c10::witness_doc_1to5();
+        if let Some(Object::Dictionary(p)) = d.objects.get_mut(&(3, 0)) {
+            let mut f = Dictionary::new(); f.set("F1", Object::Reference((5, 0)));
+            let mut res = Dictionary::new(); res.set("Font", Object::Dictionary(f));
+            p.set("Resources", Object::Dictionary(res));
+        }
+        let before = d.clone();
+        if let Ok(x) = guard(|| { let mut x = before.clone(); let _ = x.add_xobject((2, 0), "Im1", (5, 0)); x }) {
+            c.corr(format!("step addxobj 2 0 {} 5 0 {}", hex_tok(b"Im1"), show_doc(&before)), format!("ok unit | {}", show_doc(&x)));
+            let eb = effective_resources(&before, (2, 0)).map(|e| e.0).unwrap_or_default();
+            let ea = effective_resources(&x, (2, 0)).map(|e| e.0).unwrap_or_default();
+            let key = (b"Font".to_vec(), b"F1".to_vec());
+            c.witness("F-C11-e", eb.contains_key(&key) && !ea.contains_key(&key),
+                &format!("page 2 inherits /Font /F1 from its parent; after add_xobject((2,0), Im1, ..) the page's own Resources has keys {:?}", ea.keys().map(|k| String::from_utf8_lossy(&k.0).to_string()).collect::<Vec<_>>()));
+        }
+    }
     // F-C11-b: set_object above max_id, then add_object overwrites it
     if let Some(_r) = c.case("witness_set_above_max", 0) {
         let d = c10::witness_doc_1to5();
@@ -432,17 +633,22 @@ fn witnesses(c: &mut Ctx) {
         if let Ok((mid, x, id)) = res {
             c.corr(req, format!("ok unit | {}", show_doc(&mid)));
             c.corr(format!("step add i2 {}", show_doc(&mid)), format!("ok id {}_{} | {}", id.0, id.1, show_doc(&x)));
-            c.witness("F-C11-b", id == (6, 0) && x.objects.get(&(6, 0)) == Some(&Object::Integer(2)) && mid.max_id < 6,
-                "set_object((6,0), 1) on a document with max_id 5 leaves max_id at 5; the next add_object returns (6,0) and overwrites the object");
+            // fixed by f7b469f: reproduced = the defect is back
+            c.witness("F-C11-b", id == (6, 0) || x.objects.get(&(6, 0)) != Some(&Object::Integer(1)) || mid.max_id < 6,
+                &format!("set_object((6,0), 1) on a document with max_id 5: max_id afterwards {}; the next add_object returned {:?}; object (6,0) is now {:?}", mid.max_id, id, x.objects.get(&(6, 0))));
         }
     }
-    // F-C13-e / C11 domain: delete_pages with a cyclic Parent chain never returns
-    if let Some(_r) = c.case("witness_delete_pages_cycle", 0) {
+    // observation (malformed input, outside C11's quantifier over well-formed starting documents):
+    // delete_pages with a cyclic Parent chain never returns; the model reports `hang`
+    if let Some(_r) = c.case("observation_delete_pages_cycle", 0) {
         let out = crate::iso::run_isolated("C11", &["cycle".to_string()], 3000, 512);
-        let hung = out.get(0).map(|s| s == "timeout").unwrap_or(false);
         let d = cyclic_parent_doc();
         c.corr(format!("step delpages 1 1 {}", show_doc(&d)), "err hang".into());
-        c.witness("F-C11-c", hung, &format!("delete_pages(&[1]) on a page tree whose root is its own Parent: worker outcome {:?}", out.get(0)));
+        match out.get(0).map(|s| s.as_str()) {
+            Some("timeout") => c.count("observation.delete_pages_cyclic_parent_hangs"),
+            Some("returned") => c.count("observation.delete_pages_cyclic_parent_returns"),
+            _ => c.count("observation.delete_pages_cyclic_parent_other"),
+        }
     }
 }
 
